@@ -251,7 +251,7 @@ func c13specs(prop string) []gw.Spec {
 		cfg := gw.DefaultConfig()
 		cfg.Auth = auth
 		cfg.Predefined = topics.PredefinedTopics{"*": {1: "p/1"}}
-		out = append(out, gw.Spec{Name: fmt.Sprintf("auth=%t", auth), Cfg: cfg, NoSettle: true, NewMonitor: func() gw.Monitor {
+		out = append(out, gw.Spec{Name: fmt.Sprintf("auth=%t", auth), Cfg: cfg, NoSettle: true, Livelock: prop == "C13", NewMonitor: func() gw.Monitor {
 			return &c13mon{prop: prop, prevState: "disconnected", maxDepth: depth, alphabet: c13alphabet(), causes: causes}
 		}})
 	}
@@ -294,6 +294,9 @@ func c13e2(prop string) []gw.E2Spec {
 			}
 			if wantDisc >= 0 && nDisc != wantDisc {
 				add("C13", fmt.Sprintf("e2:client-disconnect-count:%s:got=%d", cause, nDisc), "client received %d DISCONNECT datagrams, want %d", nDisc, wantDisc)
+			}
+			if wantDisc < -1 && nDisc > -wantDisc-1 {
+				add("C13", fmt.Sprintf("e2:client-disconnect-count:%s:got=%d", cause, nDisc), "client received %d DISCONNECT datagrams, want at most %d (the reply to its own DISCONNECT; a client that disconnects itself gets no DISCONNECT of an ending session)", nDisc, -wantDisc-1)
 			}
 			mqDisc := 0
 			for i, o := range mq {
@@ -345,8 +348,20 @@ func c13e2(prop string) []gw.E2Spec {
 			}
 			return nil
 		}}
+	// a real broker closes the connection as soon as it has read DISCONNECT: the end of the broker connection
+	// races with the rest of the handling of the client's DISCONNECT.  C13 forbids a DISCONNECT of the ending
+	// session to a client that disconnected itself (so at most the one reply); it does not demand that the
+	// reply wins the race against the end of the session (wantDisc -2 = at most 1).
+	closing := func(sp gw.E2Spec) gw.E2Spec {
+		sp.Name += " (broker closes on DISCONNECT)"
+		sp.CloseOn = func(p refmqtt.Pkt) bool { return p.Type == refmqtt.DISCONNECT }
+		return sp
+	}
 	return []gw.E2Spec{
 		sleepAtOnce,
+		closing(mk("client-DISCONNECT|active", active, time.Second, -2, "client-DISCONNECT", gw.EvC("DISCONNECT(0)", gw.Disconnect(0)))),
+		closing(mk("client-DISCONNECT|asleep", asleep, time.Second, -2, "client-DISCONNECT", gw.EvC("DISCONNECT(0)", gw.Disconnect(0)))),
+		closing(mk("client-DISCONNECT|pending broker q1", pendingQ1, 7*time.Second, -2, "client-DISCONNECT", gw.EvC("DISCONNECT(0)", gw.Disconnect(0)))),
 		mk("client-DISCONNECT|sleep pinger just started by a wake-up", asleep, time.Second, 1, "client-DISCONNECT", gw.EvC("PINGREQ(wake)", gw.Pingreq("c1")), gw.EvC("DISCONNECT(0)", gw.Disconnect(0))),
 		mk("client-DISCONNECT|sleep pinger just started by DISCONNECT(d)", active, time.Second, 2 /* one reply to each of the client's two DISCONNECTs */, "client-DISCONNECT", gw.EvC("DISCONNECT(5)", gw.Disconnect(5)), gw.EvC("DISCONNECT(0)", gw.Disconnect(0))),
 		mk("shutdown|retry-timer(pending q1)", pendingQ1, 7*time.Second, 1, "gateway-shutdown", gw.EvShutdown),
